@@ -85,13 +85,13 @@ def run(chk):
                        "(runtime re-resolves from the value), generated cases avoid it and the corpus witness reports it"]
     chk.prove()
     rng = chk.rng
-    n = 1500 if chk.thorough else 260
+    n = 12000 if chk.thorough else 260
     cps = []
     for _ in range(n):
         depth = rng.choice([1, 2, 2, 3, 3, 4, 5])
         cps.append(classgen.ClassProgram(rng, depth=depth, churn=rng.random() < 0.25))
-    ovs = [overload_case(rng) for _ in range(2500 if chk.thorough else 500)]
-    gens = [generic_case(rng) for _ in range(300 if chk.thorough else 60)]
+    ovs = [overload_case(rng) for _ in range(20000 if chk.thorough else 500)]
+    gens = [generic_case(rng) for _ in range(3000 if chk.thorough else 60)]
     corpus = load_corpus("C08")
     progs = [(c.source(), []) for c in cps] + [(o[0], []) for o in ovs] + [(g[0], []) for g in gens] + \
             [(o["source"], []) for _fn, o in corpus]
